@@ -454,6 +454,25 @@ def serial_writers(P, R, canonical=False):
     R.floor('C04.WMC.2', 3)
 
 
+def reply_words(P, R, rule='C04.WIRE.2'):
+    """What the reply handlers judge is what arrived: the service name, the routing tag and the text handed to the
+    modules' x_reply / x_unlinked slots are the words of the input line themselves (elements of the dispatcher's
+    argument vector), not something the core computed from them - a tag "normalised" on the way is no longer the tag the
+    service echoed, and the serial in it was never compared."""
+    n = 0
+    for f in P.unit_fns('modules/iauth_core.c'):
+        for s in f.calls():
+            slot = P.call_slot(s)
+            if slot not in ('iauth_module::x_reply', 'iauth_module::x_unlinked'):
+                continue
+            argv = [p['name'] for p in f.param_info if p.get('t', '').replace(' ', '') in ('char**', 'char*[]')]
+            for j, a in enumerate(s.ev['args'][:3]):
+                n += 1
+                ok = isinstance(a, dict) and a.get('k') == 'idx' and is_var(a.get('base')) and a['base']['name'] in argv and const_of(a.get('index')) == j + 1
+                R.ob(rule, ok, s, 'argument %d of the %s call is word %d of the input line as it arrived (found %s)' % (j + 1, slot.split('::')[1], j + 1, sx(a)), key='reply-word:%s:%d' % (slot.split('::')[1], j + 1))
+    R.floor(rule, 6, 'arguments of the reply slots')
+
+
 def run(P, R, tier):
     r, sepch, idv, serv = tag_tables(P, R)
     canonical = validated_return(P, R, r, sepch, idv, serv)
@@ -467,7 +486,8 @@ def run(P, R, tier):
     from . import c07
     c07.slot_stability(P, Remap(R, {'C07.WMC.3': 'C04.WMC.3'}))
     # ... and a slot still referenced by a pending client is not handed to another service
-    c07.storage_audit(P, Remap(R, {'C07.WMC.1': 'C04.WMC.3'}, keys=('slot-release',)))
+    c07.storage_audit(P, Remap(R, {'C07.WMC.1': 'C04.WMC.3'}, keys=('slot-release', 'static-write')))
+    reply_words(P, R)
     # a slot is kept for as long as a client awaits it: every awaited mark takes a reference, every clear gives one back
     from .. import holds as _holds
     _holds.refs_discipline(P, R, 'C04.WMC.4')
